@@ -29,6 +29,12 @@ def run(ctx):
                            lambda cell, pty=pty: [posit_arg(pty, cell[0][0], cell[0][1], 0), posit_arg(pty, cell[1][0], cell[1][1], 1)],
                            [cells, cells], posit_binary_spec(pty, f), pty.bits)
             tot += decided(st)
+            import probes
+            pc = probes.singles(probes.small_posit_probes(pty) if ctx.tier == 'quick' else probes.posit_probes(pty))
+            st = run_cells(ctx, prog, 'GCR', '%s::%s' % (pty.name, name), path,
+                           lambda cell, pty=pty: [posit_arg(pty, cell[0][0], cell[0][1], 0), posit_arg(pty, cell[1][0], cell[1][1], 1)],
+                           [pc, pc], posit_binary_spec(pty, f), pty.bits, max_product=40000)
+            ctx.count('probe_cells', st['cells'])
     ctx.require('C01 decided cells', tot, 300)
     ctx.undecided['general_path'] = 'alignment, sticky collection, rounding and saturation on the general arithmetic path are not decided'
     return LEVEL, ('NaR/zero algebra and evaluation order of the guards of + - * / for the three fixed types, decided for all operand pairs of each '
